@@ -12,7 +12,7 @@ def canon_err(e): return ["err"]
 def impl_closure(E):
     from opcua_tools.navigation import fast_transitive_closure
     try:
-        df = fast_transitive_closure(pd.DataFrame({"Src": pd.Series([a for a, _ in E], dtype="int64"), "Trg": pd.Series([b for _, b in E], dtype="int64")}))
+        df = fast_transitive_closure(vlib.relabel(pd.DataFrame({"Src": pd.Series([a for a, _ in E], dtype="int64"), "Trg": pd.Series([b for _, b in E], dtype="int64")}), 1))
         return ["ok", sorted([int(a), int(b)] for a, b in zip(df["Src"], df["Trg"]))]
     except BaseException as e:
         return canon_err(e)
@@ -21,7 +21,7 @@ def frames(tn, trefs, inst=None):
     type_nodes = pd.DataFrame({"id": pd.Series([n[0] for n in tn], dtype="int64"), "NodeClass": [n[1] for n in tn], "BrowseName": [n[2] for n in tn]})
     def rf(l): return pd.DataFrame({"Src": pd.Series([r[0] for r in l], dtype="int64"), "Trg": pd.Series([r[1] for r in l], dtype="int64"),
                                     "ReferenceType": pd.Series([r[2] for r in l], dtype="int64")})
-    return type_nodes, rf(trefs), (rf(inst) if inst is not None else None)
+    return vlib.relabel(type_nodes, 2), vlib.relabel(rf(trefs), 1), (vlib.relabel(rf(inst), 2) if inst is not None else None)
 
 def refs_out(df): return ["ok", sorted([int(a), int(b), int(c)] for a, b, c in zip(df["Src"], df["Trg"], df["ReferenceType"]))]
 
@@ -71,6 +71,7 @@ def impl_circular(ns_of, refs, tn):
                               "NodeId": [UANodeId(ns_of[i], "i", str(i)) for i in ids],
                               "ns": [ns_of[i] for i in ids]})
         _, rdf, _ = frames(tn, refs)
+        nodes = vlib.relabel(nodes, 1)
         g = UAGraph(nodes=nodes, references=rdf, namespaces=["http://opcfoundation.org/UA/", "urn:x"], models=[])
         df = g.find_circular_reference_nodes("urn:x")
         return ["ok", sorted(int(n.value) for n in df["NodeId"])]
